@@ -143,6 +143,7 @@ type epochInfo struct {
 	members  []int
 	complete map[int]bool
 	ttDiffer bool // completers of this epoch computed different transition times
+	membersDiffer bool // completers of this epoch hold groups with different member sets (their key generations qualified different dealers)
 }
 
 type chainCtx struct {
@@ -677,6 +678,9 @@ func (e *daemonEngine) collectEpoch(id string, members []int, epochNo int, old *
 			if strings.HasPrefix(facts, "transition_time") {
 				ep.ttDiffer = true
 			}
+			if facts == "members" {
+				ep.membersDiffer = true
+			}
 			e.rec.Violate("C06", "groups-differ", facts, "beacon %s epoch %d: node%d and node%d hold different groups: %s", id, epochNo, refNode, i, d)
 		}
 		// the share lies on the public polynomial
@@ -696,6 +700,12 @@ func (e *daemonEngine) collectEpoch(id string, members []int, epochNo int, old *
 		}
 	}
 	ep.group = ref
+	after := ""
+	if ep.membersDiffer {
+		// shares of completers that qualified different sets of dealers do not lie on one polynomial: what
+		// follows is the consequence of the disagreement above, named as such
+		after = "-after-members-diverged"
+	}
 	if ref != nil && len(shares) >= ref.Threshold {
 		// any threshold of the shares interpolates the same secret
 		r := NewRng(H64(e.sc.Seed, "subsets", id, epochNo))
@@ -708,18 +718,18 @@ func (e *daemonEngine) collectEpoch(id string, members []int, epochNo int, old *
 			}
 			s, err := share.RecoverSecret(cc.ref.KeyGroup, sub, ref.Threshold, len(ref.Nodes))
 			if err != nil {
-				e.rec.Violate("C06", "shares-do-not-interpolate", "recover", "beacon %s epoch %d: %v", id, epochNo, err)
+				e.rec.Violate("C06", "shares-do-not-interpolate", "recover"+after, "beacon %s epoch %d: %v", id, epochNo, err)
 				break
 			}
 			if first == nil {
 				first = s
 			} else if !first.Equal(s) {
-				e.rec.Violate("C06", "threshold-subsets-disagree", "recover", "beacon %s epoch %d: two threshold subsets of the shares give different secrets", id, epochNo)
+				e.rec.Violate("C06", "threshold-subsets-disagree", "recover"+after, "beacon %s epoch %d: two threshold subsets of the shares give different secrets", id, epochNo)
 			}
 		}
 		ep.master = first
 		if first != nil && !cc.ref.KeyGroup.Point().Mul(first, nil).Equal(ref.PublicKey.Key()) {
-			e.rec.Violate("C06", "secret-does-not-match-group-key", "key", "beacon %s epoch %d: the interpolated secret is not the private key of the group key", id, epochNo)
+			e.rec.Violate("C06", "secret-does-not-match-group-key", "key"+after, "beacon %s epoch %d: the interpolated secret is not the private key of the group key", id, epochNo)
 		}
 	}
 	return ep
